@@ -76,6 +76,8 @@ def suitable_description(fmt, slot, rng):
             force = "layered-product-variant"
         elif slot.name == "variant.child-arch-outside-parent":
             force = "depth-3"
+        elif slot.name == "variant.deep-child-arch-of-top-not-parent":
+            force = "depth-3-narrowing"
         elif slot.name == "compose.final":
             force = "final-true"
     if fmt == "treeinfo":
@@ -97,6 +99,16 @@ def suitable_description(fmt, slot, rng):
             D["compose"]["label"] = "Beta-1.2"
         if fmt == "treeinfo" and slot.name == "images.absolute-path" and not D["images"]:
             continue
+        if force == "depth-3-narrowing":
+            # top-level with three arches, its child with one of them, a grandchild below
+            top = D["variants"][0]
+            top["arches"] = ["ppc64le", "s390x", "x86_64"]
+            mid = top["children"][0]
+            for n in FC.iter_nodes([top]):
+                if n is not top:
+                    n["arches"] = ["x86_64"]
+                for cat in list(n["paths"]):
+                    n["paths"][cat] = dict((a, p) for a, p in n["paths"][cat].items() if a in n["arches"])
         return D
     return None
 
